@@ -57,7 +57,7 @@ class Finding:
 SEMANTIC_RULES = {
     "C01": {"R1", "R3", "R4", "E2E"},
     "C02": {"R1", "R2", "R3", "R5", "R7", "R8", "R9"},
-    "C03": {"R1", "R4", "R5", "R6", "R7", "R6v", "R8v", "R9v"},
+    "C03": {"R1", "R4", "R5", "R6", "R7", "R6v", "R8v", "R9v", "R3v"},
     "C04": {"R1", "R2", "R3", "R4", "R9", "R10", "R11"},
     "C05": {"R1", "R2", "R3", "R6", "R8", "R9", "R10"},
     "C06": {"R1", "R2", "R3", "R4", "R5", "R6v", "R8", "R8v", "R9v"},
@@ -123,6 +123,15 @@ class Check:
     def ob(self, rule, module, node, construct, good: bool, message="", extra=None):
         self._ob(rule, module, node, construct, bool(good), message, extra)
 
+    @staticmethod
+    def _is_interpreted(ctext, message):
+        """an obligation evaluated on the interpreted source (stub scenario, exploration, finite-domain evaluation) is decided
+        by meaning whatever rule id it is filed under: it is never downgraded to "undecided" by the shape gate"""
+        t = ctext + " " + (message or "")[:80]
+        return any(k in t for k in ("interpreted", "compile_query with ", "source table cache:", "from_ast(", "SELECT #", "[identity]", "[columns]",
+                                    "[scope]", "[grouping]", "[missed-hazard]", "[alias-not-enough]", "[over-eager]", "[parent-modified]",
+                                    "recompile:", "compile-error:", "clause:", "statement-shape:"))  # fmt: skip
+
     def _ob(self, rule, module, node, construct, good, message, extra=None):
         self.obligations += 1
         pr = self.per_rule.setdefault(rule, [0, 0])
@@ -136,7 +145,7 @@ class Check:
         if good:
             self.discharged += 1
             pr[1] += 1
-        elif self._shape_undecided(rule, module, node):
+        elif not self._is_interpreted(ctext, message) and self._shape_undecided(rule, module, node):
             self.undecided.append(f"{rule}: {ctext[:160]}")
         else:
             self.findings.append(Finding(self.prop, rule, module, node, ctext, message, extra))
